@@ -85,6 +85,44 @@ func runC18(c *Ctx) {
 			fmt.Sprintf("varuint %d", v), fmt.Sprintf("varuint/len%d", len(bs)), v >= 128)
 		c.count(fmt.Sprintf("varuint_len_%d", len(bs)))
 	}
+	// Append into a buffer that already holds bytes, with every amount of spare capacity around the
+	// longest encoding: the prefix is kept and the appended bytes are those of Append(nil, v)
+	appendInto := func(v uint64) {
+		want := plenccore.AppendVarUint(nil, v)
+		for spare := 0; spare <= 12; spare++ {
+			for _, pre := range []int{0, 1, 3} {
+				desc := fmt.Sprintf("AppendVarUint into len=%d cap=%d value=%d", pre, pre+spare, v)
+				func() {
+					defer guard(desc)()
+					buf := make([]byte, pre, pre+spare)
+					for i := range buf {
+						buf[i] = byte(0xA0 + i)
+					}
+					got := plenccore.AppendVarUint(buf, v)
+					ok := len(got) == pre+len(want) && string(got[pre:]) == string(want)
+					for i := 0; i < pre && ok; i++ {
+						ok = got[i] == byte(0xA0+i)
+					}
+					if !ok {
+						c.native = append(c.native, NativeViolation{Case: desc, What: fmt.Sprintf("gives %x, want the prefix followed by %x", got, want), Class: "append-into-buffer"})
+					}
+					iv := int64(v)
+					gi := plenccore.AppendVarInt(buf[:pre], iv)
+					if wi := plenccore.AppendVarInt(nil, iv); len(gi) != pre+len(wi) || string(gi[pre:]) != string(wi) {
+						c.native = append(c.native, NativeViolation{Case: "AppendVarInt " + desc, What: fmt.Sprintf("gives %x, want the prefix followed by %x", gi, wi), Class: "append-into-buffer"})
+					}
+					gt := plenccore.AppendTag(buf[:pre], plenccore.WTLength, int(v>>4))
+					if wtg := plenccore.AppendTag(nil, plenccore.WTLength, int(v>>4)); len(gt) != pre+len(wtg) || string(gt[pre:]) != string(wtg) {
+						c.native = append(c.native, NativeViolation{Case: "AppendTag " + desc, What: fmt.Sprintf("gives %x, want the prefix followed by %x", gt, wtg), Class: "append-into-buffer"})
+					}
+				}()
+				c.count("append_into_buffer")
+			}
+		}
+	}
+	for _, v := range []uint64{0, 1, 127, 128, 16383, 16384, 1<<35 - 1, 1 << 35, 1<<56 - 1, 1 << 56, 1<<63 - 1, 1 << 63, 1<<63 + 1, ^uint64(0)} {
+		appendInto(v)
+	}
 	varint := func(v int64) {
 		defer guard(fmt.Sprintf("varint %d", v))()
 		u := plenccore.ZigZag(v)
